@@ -320,16 +320,18 @@ static void ep_mul_reg_glv(ep_t r, const ep_t p, const bn_t k) {
 #if defined(EP_PLAIN) || defined(EP_SUPER)
 
 static void ep_mul_reg_imp(ep_t r, const ep_t p, const bn_t k) {
-	bn_t m;
-	int i, j, n;
+	bn_t m, ord;
+	int i, j, n, even;
 	int8_t s, reg[1 + RLC_CEIL(RLC_FP_BITS + 1, RLC_WIDTH - 1)];
 	ep_t t[1 << (RLC_WIDTH - 2)], u, v;
 	size_t l;
 
 	bn_null(m);
+	bn_null(ord);
 
 	RLC_TRY {
 		bn_new(m);
+		bn_new(ord);
 		ep_new(u);
 		ep_new(v);
 		/* Prepare the precomputation table. */
@@ -340,11 +342,14 @@ static void ep_mul_reg_imp(ep_t r, const ep_t p, const bn_t k) {
 		/* Compute the precomputation table. */
 		ep_tab(t, p, RLC_WIDTH);
 
-		ep_curve_get_ord(m);
-		n = bn_bits(m);
+		ep_curve_get_ord(ord);
+		n = bn_bits(ord);
 
-		/* Make a copy of the scalar for processing. */
+		/* Make a copy of the scalar for processing, reduced modulo the group
+		 * order because the recoding only covers scalars of that length. */
 		bn_abs(m, k);
+		bn_mod(m, m, ord);
+		even = bn_is_even(m);
 		m->dp[0] |= 1;
 
 		/* Compute the regular w-NAF representation of k. */
@@ -380,9 +385,9 @@ static void ep_mul_reg_imp(ep_t r, const ep_t p, const bn_t k) {
 		}
 		/* t[0] has an unmodified copy of p. */
 		ep_sub(u, r, t[0]);
-		fp_copy_sec(r->x, u->x, bn_is_even(k));
-		fp_copy_sec(r->y, u->y, bn_is_even(k));
-		fp_copy_sec(r->z, u->z, bn_is_even(k));
+		fp_copy_sec(r->x, u->x, even);
+		fp_copy_sec(r->y, u->y, even);
+		fp_copy_sec(r->z, u->z, even);
 		/* Convert r to affine coordinates. */
 		ep_norm(r, r);
 		ep_neg(u, r);
@@ -397,6 +402,7 @@ static void ep_mul_reg_imp(ep_t r, const ep_t p, const bn_t k) {
 			ep_free(t[i]);
 		}
 		bn_free(m);
+		bn_free(ord);
 		ep_free(u);
 		ep_free(v);
 	}
